@@ -51,6 +51,9 @@ def _seq(draw):
 def _txt(draw):
     names = [draw(st.sampled_from(NAMES)) for _ in range(draw(st.integers(1, 30)))]
     lines = _break(draw, names, " ")
+    if draw(st.integers(0, 2)) == 0:
+        # blanks at the ends of lines (a space before the line break, an indented continuation line)
+        lines = [(" " if draw(st.integers(0, 3)) == 0 else "") + ln + (" " if draw(st.integers(0, 2)) == 0 else "") for ln in lines]
     return {"kind": "txt", "names": names, "lines": lines, "trailing_newline": draw(st.booleans())}
 
 
